@@ -73,6 +73,54 @@ theorem postEvents_fuel (sz c : Nat) : ∀ (fuel : Nat) (avail : Bytes), avail.l
     | panicked => rfl
     | stuck => rfl
 
+/-- only a decoded PUBLISH becomes a `publish` packet, with the fields of its fixed header -/
+theorem toPacket_publish {m : Mqtt.Model.Codec.Msg} {p : Mqtt.Iface.Broker.Pub} (h : toPacket m = .publish p) :
+    ∃ hd topic payload, m = .publish hd topic payload ∧ p.qos = Mqtt.Model.Codec.pubQoS hd ∧
+      p.pktid = (if Mqtt.Model.Codec.pubQoS hd = 0 then 0 else hd.packetID) := by
+  cases m with
+  | publish hd topic payload =>
+    simp only [toPacket, Packet.publish.injEq] at h
+    subst h
+    exact ⟨hd, topic, payload, rfl, rfl, rfl⟩
+  | connect hd c => simp [toPacket] at h
+  | connack hd sp rc => simp [toPacket] at h
+  | ack hd => simp only [toPacket] at h; (repeat' split at h) <;> cases h
+  | subscribe hd ts qs => simp [toPacket] at h
+  | suback hd codes => simp [toPacket] at h
+  | unsubscribe hd ts => simp [toPacket] at h
+  | bare hd => simp only [toPacket] at h; (repeat' split at h) <;> cases h
+
+/-- every PUBLISH the framing hands to the broker model carries a packet identifier when its
+QoS needs one ([MQTT-2.3.1-1]): QoS 0, or a non-zero identifier -/
+theorem postEvents_publish_ids (sz c : Nat) : ∀ (fuel : Nat) (avail : Bytes) (p : Mqtt.Iface.Broker.Pub),
+    Ev.packet c (.publish p) ∈ (postEvents sz c fuel avail).1 → p.qos = 0 ∨ p.pktid ≠ 0 := by
+  intro fuel
+  induction fuel with
+  | zero => intro avail p h; cases h
+  | succ fuel ih =>
+    intro avail p h
+    unfold postEvents at h
+    cases ho : (nextPacket sz avail).outcome with
+    | packet d total =>
+      rw [ho] at h
+      simp only [List.mem_cons, Ev.packet.injEq, true_and] at h
+      rcases h with h | h
+      · obtain ⟨_, _, _, _, hm⟩ := (nextPacket_spec sz avail).2.2.1 d total ho
+        obtain ⟨hd, topic, payload, hmsg, hq, hid⟩ := toPacket_publish h.symm
+        rw [hmsg] at hm
+        simp only [publishIdMissing, Bool.and_eq_false_imp, bne_iff_ne, ne_eq, beq_eq_false_iff_ne,
+          Mqtt.Generated.qosAtMostOnce] at hm
+        by_cases hq0 : Mqtt.Model.Codec.pubQoS hd = 0
+        · exact .inl (hq.trans hq0)
+        · right
+          rw [hid, if_neg hq0]
+          exact hm hq0
+      · exact ih _ p h
+    | needMore => rw [ho] at h; cases h
+    | closeThis => rw [ho] at h; simp at h
+    | panicked => rw [ho] at h; simp at h
+    | stuck => rw [ho] at h; simp at h
+
 theorem firstEvent_shape (c : Nat) (auth : Auth) (stream : Bytes) (ends : Bool) (e : Ev) (rest : Bytes)
     (h : firstEvent c auth stream ends = some (e, rest)) :
     (∃ f a, e = .first c f a) ∧ ∃ k, rest = stream.drop k := by
